@@ -17,6 +17,19 @@ def parseCls : String → Option Cls
 
 def intsStr (l : List Int) : String := ",".intercalate (l.map toString)
 
+/-- Leaving out at most `k` gaps, the i-th remaining gap is at least the i-th wait of the schedule
+(1 % tolerance; microseconds). Greedy: a gap is left out only when it is too short for its slot;
+leaving out an earlier, long enough one instead never helps (the schedule does not decrease), so
+this decides "some choice of at most `k` gaps works". The schedule is constant from its 14th entry
+(`schedule_constant_from_14`), which keeps a request storm of 10^5 attempts cheap to judge. -/
+def followsScheduleFrom (k : Nat) : List Nat → Nat → Nat → Bool
+  | [], _, _ => true
+  | g :: gs, i, d =>
+    if g * 100 ≥ ((GV.Retry.sched (min i 14)) / 1000).toNat * 99 then followsScheduleFrom k gs (i + 1) d
+    else if d < k then followsScheduleFrom k gs i (d + 1) else false
+
+def followsSchedule (k : Nat) (gaps : List Nat) : Bool := followsScheduleFrom k gaps 0 0
+
 /-- `step <b> <implNext> <elapsedNs>` — one real `sleepAndIncreaseBackoff(ctx, b)` with a live context.
     `cancel <b> <implNext> <err>` — the same with a context that is cancelled while waiting.
     `rpc <cls,cls,…> <implSleeps>` — SendRPC against scripted outcomes; the harness replaces the
@@ -79,13 +92,16 @@ def handle : List String → String
     let waited := gaps.filter (· ≥ 8000)
     let allowedImmediate := if kind = "retryable" || kind = "partial-retryable" then 0 else 2
     let _ := api
-    if immediate.length > allowedImmediate then
+    -- the statement: leaving out at most `allowedImmediate` of the gaps (the immediate retries —
+    -- on a loaded machine an immediate retry with its probe can itself take longer than the first
+    -- wait of the schedule, so they are not recognised by their length), the others are, in order,
+    -- at least the waits of the schedule
+    if followsSchedule allowedImmediate gaps then s!"OK tags=gaps,{api},{kind},waits{waited.length}"
+    else if immediate.length > allowedImmediate then
       s!"SPEC key=hot-retry-{api}-{kind} immediate={immediate.length} gaps_us={gaps}"
     else
       let sched : List Nat := (List.range waited.length).map (fun i => ((sched i) / 1000).toNat)
-      let short := (waited.zip sched).filter (fun (g, want) => g * 100 < want * 99)
-      if !short.isEmpty then s!"SPEC key=wait-shorter-than-schedule-{api}-{kind} gaps_us={waited} schedule_us={sched}"
-      else s!"OK tags=gaps,{api},{kind},waits{waited.length}"
+      s!"SPEC key=wait-shorter-than-schedule-{api}-{kind} gaps_us={waited} schedule_us={sched}"
   | ["rate", kind, atts] =>
     -- attempts seen by the environment while the failure persists (x.<kind>.<time_us>): the k-th
     -- gap is at least the k-th wait of the schedule (whatever an attempt itself took comes on top);
@@ -99,12 +115,11 @@ def handle : List String → String
       let immediate := gaps.filter (· < 8000)
       let waited := gaps.filter (· ≥ 8000)
       let allowedImmediate := if kind = "server-refuses" then 2 else 0
-      if immediate.length > allowedImmediate then
+      if !followsSchedule allowedImmediate gaps && immediate.length > allowedImmediate then
         s!"SPEC key=hot-retry-{kind} immediate={immediate.length} attempts={ts.length}"
       else
         let sched : List Nat := (List.range waited.length).map (fun i => ((sched i) / 1000).toNat)
-        let short := (waited.zip sched).filter (fun (g, want) => g * 100 < want * 99)
-        if !short.isEmpty then s!"SPEC key=wait-shorter-than-schedule-{kind} gaps_us={waited} schedule_us={sched}"
+        if !followsSchedule allowedImmediate gaps then s!"SPEC key=wait-shorter-than-schedule-{kind} gaps_us={waited} schedule_us={sched}"
         else
           -- … and the attempts as a whole stay under the schedule: the k-th one cannot come before the
           -- first k−1 waits have passed (less the immediate retries allowed), however the attempts are
